@@ -29,7 +29,9 @@ RULE = (
     "sequence runs; after every repair step each job's new path (type and identifier of the New-class build) "
     "resolves to its directory with the sentinel, a dry-run submission of the New-class configuration sees the "
     "success marker when the script name is unchanged, the multiset of sentinel contents never shrinks, no "
-    "regular file under jobs/ disappears, and repeating the step changes nothing. Non-trivial = a family "
+    "regular file under jobs/ disappears, every parameter file still describes as many objects as before, and "
+    "repeating the step changes nothing. Part 'bulk-repair': the first task of a plan repeated 30 or 50 times with "
+    "other values, so that one invocation repairs many jobs. Non-trivial = a family "
     "class below the root, or >= 2 repair steps."
 )
 ASSUMPTIONS = [
@@ -37,7 +39,7 @@ ASSUMPTIONS = [
     "what `orphans` does with repaired links is outside this property",
     "class families are created per case (deprecate() cannot be undone)",
 ]
-MIN_CLASSES = {"quick": {"family-below-root": 400, "repair-steps>=2": 100, "mode:fix+cleanup": 100, "pre:link-present": 20, "family-task-root": 200, "fault-injected": 15}, "thorough": {"repair-steps>=2": 1000}}
+MIN_CLASSES = {"quick": {"family-below-root": 400, "repair-steps>=2": 100, "mode:fix+cleanup": 100, "pre:link-present": 20, "family-task-root": 200, "fault-injected": 15, "many-jobs-repaired-at-once": 20}, "thorough": {"repair-steps>=2": 1000}}
 
 POSITIONS = ["list", "dict", "nested", "inside-family", "producer"]
 
@@ -62,6 +64,18 @@ def plans(draw):
         # an I/O fault (no space left) during the k-th rewrite of a parameter file by a cleanup step
         "fault": draw(st.one_of(st.none(), st.none(), st.integers(0, 2))),
     }
+
+
+@st.composite
+def bulk_plans(draw):
+    """Many jobs repaired by one invocation: the first task of a plan repeated with other values"""
+    plan = draw(plans())
+    plan["tasks"] = plan["tasks"][:1]
+    plan["modes"] = draw(st.sampled_from([["fix+cleanup"], ["fix", "fix+cleanup"]]))
+    plan["pre"] = None
+    plan["fault"] = None
+    plan["bulk"] = draw(st.sampled_from([30, 50]))
+    return plan
 
 
 def setup(ctx):
@@ -223,6 +237,9 @@ def prop_repair(ctx, plan):
         labels.append("repair-steps>=2")
     if plan["pre"]:
         labels.append(f"pre:{plan['pre']}")
+    if plan.get("bulk"):
+        plan = dict(plan, tasks=plan["tasks"] + [dict(plan["tasks"][0], v=100 + k) for k in range(plan["bulk"])])
+        labels.append("many-jobs-repaired-at-once")
     try:
         # 1. job directories written while the Old classes are ordinary classes
         old_built = build_plan(plan, fam, True, RunMode.GENERATE_ONLY, workspace=ws)
@@ -235,7 +252,7 @@ def prop_repair(ctx, plan):
                 return
             (d / "sentinel.txt").write_text(f"result {k} of plan\n")
             Path(job.donepath).touch()
-            jobs.append({"old_dir": d, "old_type": d.parent.name, "old_id": d.name, "script": job.name})
+            jobs.append({"old_dir": d, "old_type": d.parent.name, "old_id": d.name, "script": job.name, "objects": len(json.loads((d / "params.json").read_text())["objects"])})
         # 2. deprecation
         deprecate(fam[1])
         deprecate(fam[3])
@@ -363,6 +380,15 @@ def prop_repair(ctx, plan):
                     )
                 elif j["script"] == j["new_script"] and not j["new_done"].is_file():
                     ctx.violation("success-marker-not-visible", f"{where}: job {k} is reachable as {j['new_rel']} but its success marker {j['new_done'].name} is not visible there")
+                else:
+                    # the parameter file (rewritten by a cleanup) still describes the whole graph
+                    try:
+                        now = len(json.loads((newp / "params.json").read_text())["objects"])
+                    except Exception as e:
+                        ctx.violation("parameter-file-unreadable-after-repair", f"{where}: params.json of job {k} ({j['new_rel']}) cannot be read: {e!r}")
+                        continue
+                    if now != j["objects"]:
+                        ctx.violation("parameter-file-lost-objects" + (":after-cleanup" if mode == "fix+cleanup" else ""), f"{where}: params.json of job {k} ({j['new_rel']}) described {j['objects']} objects, now {now} ({len(jobs)} jobs repaired by this invocation)")
             # idempotence: the same step again changes nothing
             snap = snapshot(wsdir / "jobs")
             try:
@@ -382,5 +408,6 @@ def prop_repair(ctx, plan):
 PARTS = [
     Part("identifiers", prop_ids, strategy=lambda ctx: plans(), quick=1600, thorough=24000),
     Part("repair", prop_repair, strategy=lambda ctx: plans(), quick=800, thorough=12000),
+    Part("bulk-repair", prop_repair, strategy=lambda ctx: bulk_plans(), quick=32, thorough=480, shrink_budget=60),
 ]
 TIMEOUT = {"quick": 900, "thorough": 5400}
